@@ -25,7 +25,8 @@ REQUIRED_PROBES = ["get_spans", "filllower"]
 REQUIRED_FEATURES = ["window:anchored", "window:disjoint", "window:overlap", "window:nested",
                      "window:overlap:T", "window:nested:T", "window:disjoint:T", "spans:edge-on-empty-row",
                      "file:legacy-int32-offset-index", "file:legacy-int32-offset-index:nnz^2>=2^31",
-                     "file:pixel-stored-as-two-records", "spelling:slice-below-axis", "spelling:slice-beyond-end"]
+                     "file:pixel-stored-as-two-records", "spelling:slice-below-axis", "spelling:slice-beyond-end",
+                     "history:long-lived-object-after-file-recreated-in-place"]
 
 PATS = ["dense", "sparse30", "sparse70", "emptyrows", "nodiag", "diag", "fullrow", "lastrow", "isolated",
         "sparse05", "empty", "emptyrows"]
@@ -377,5 +378,28 @@ def run_spell(ctx, shard):
             ctx.evaluations += nq
             mem.close()
             f.close()
+            # history: the file is re-created in place (same bins, other pixels); the Cooler objects built from the path
+            # and already queried above are used again - the windows must be those of the matrix stored NOW
+            P2 = gen.gen_pixels(rng, n, symm, PATS[(k + 5) % len(PATS)])
+            if sorted(P2) != sorted(P):
+                make_cooler(path, bt, P2, symm=symm)
+                D2 = model.dense(P2, n, symm)
+                c.feature("history:long-lived-object-after-file-recreated-in-place")
+                for st in ("path", "uri"):
+                    for (a, b) in [(0, n), (0, max(1, n // 2)), (n // 2, n)]:
+                        for (x, y) in [(0, n), (n // 2, n)]:
+                            got = stores[st].matrix(balance=False)[a:b, x:y]
+                            gs_ = stores[st].matrix(balance=False, sparse=True)[a:b, x:y].toarray()
+                            nq += 1
+                            if not c.check(np.array_equal(got, D2[a:b, x:y]) and np.array_equal(gs_, D2[a:b, x:y]),
+                                           "window-after-file-recreated:long-lived-object",
+                                           f"matrix[{a}:{b},{x}:{y}] through the Cooler object ({st}) that was queried before the "
+                                           "file was re-created in place is not the window of the matrix stored now",
+                                           {"old": sorted(P.items())[:12], "new": sorted(P2.items())[:12]}):
+                                break
+                    pt = stores[st].pixels()[:] if len(P2) == len(P) else None      # (the row count is read at construction)
+                    if pt is not None:
+                        c.check(list(zip(pt["bin1_id"].tolist(), pt["bin2_id"].tolist())) == sorted(P2),
+                                "window-after-file-recreated:pixel-table", "pixels()[:] through the long-lived object != stored rows")
             ctx.sample({"spelling_case": {"n": n, "pattern": pat, "symm": symm}, "queries": nq}, limit=7)
         os.remove(path)
